@@ -220,6 +220,29 @@ fn filter_matches(f: &packed::Bytes, h: &Byte32) -> bool {
     reader.match_any(&mut std::io::Cursor::new(f.raw_data().to_vec()), &mut std::iter::once(h.as_slice())).unwrap_or(false)
 }
 
+
+/// disk hygiene: temp-db nodes leave their directories behind when dropped (≈ 80 MB each); everything this
+/// process created under the temp dir since `base` was taken is removed between histories
+fn tmp_entries() -> std::collections::HashSet<std::path::PathBuf> {
+    std::fs::read_dir(std::env::temp_dir()).map(|d| d.filter_map(|e| e.ok().map(|e| e.path())).collect()).unwrap_or_default()
+}
+fn sweep(base: &std::collections::HashSet<std::path::PathBuf>) {
+    for e in tmp_entries() {
+        if !base.contains(&e) {
+            // `SharedBuilder::with_temp_db` keeps ONE process-wide base directory with a `db_<n>` child per node:
+            // keep the base, remove the children (no temp node is alive between histories)
+            let kids: Vec<std::path::PathBuf> = std::fs::read_dir(&e).map(|d| d.filter_map(|x| x.ok().map(|x| x.path())).collect()).unwrap_or_default();
+            if !kids.is_empty() && kids.iter().all(|k| k.file_name().map(|f| f.to_string_lossy().starts_with("db_")).unwrap_or(false)) {
+                for k in kids {
+                    let _ = std::fs::remove_dir_all(&k);
+                }
+            } else if std::fs::remove_dir_all(&e).is_err() {
+                let _ = std::fs::remove_file(&e);
+            }
+        }
+    }
+}
+
 #[derive(Default)]
 struct Stats {
     steps: u64,
@@ -246,7 +269,9 @@ fn chain_cmd(inp: &Input) {
     let mut rng = Rng::new(inp.seed);
     let mut tool_errors: Vec<String> = vec![];
     let heavy = difficulty_to_compact(U256::from(6u64));
+    let base = tmp_entries();
     'hist: for hist in &inp.hists {
+        sweep(&base);
         let n = Node::start(&NodeCfg { assembler: false, ..NodeCfg::temp(c) });
         ckb_block_filter::filter::BlockFilter::new(n.shared.clone()).start();
         let mut blocks: HashMap<usize, Blk> = HashMap::new();
@@ -449,6 +474,7 @@ fn chain_cmd(inp: &Input) {
         drop(builders);
         drop(n);
     }
+    sweep(&base);
     for e in &tool_errors {
         println!("{}", json!({"tool_error": e}));
     }
